@@ -67,6 +67,11 @@ class Pos(int, utype.Rule):
         return self.pos * 1000 + self.hidden
 
     @property
+    @utype.Field(dependencies=['mix'])
+    def mix2(self) -> int:
+        return self.mix + 1
+
+    @property
     def sp(self) -> int:
         return getattr(self, '_sp', 0)
 
@@ -85,7 +90,7 @@ FIELDS = {   # attname -> (output name, kind)
 }
 KEYS = {  # accepted spellings -> attname
     "req": "req", "opt": "opt", "pos": "pos", "name": "name", "Name": "name", "imm": "imm", "ci": "ci", "CI": "ci", "Ci": "ci", "CiAlt": "ci", "cialt": "ci",
-    "hidden": "hidden", "ex": "ex", "tags": "tags", "double": "double", "hsum": "double", "mix": "double", "sp": "double",
+    "hidden": "hidden", "ex": "ex", "tags": "tags", "double": "double", "hsum": "double", "mix": "double", "mix2": "double", "sp": "double",
 }
 UNKNOWN = ["zz", "x1"]
 _n = [0]
@@ -196,7 +201,7 @@ def check_invariants(inst, is_schema, options, initial_imm, step, inherit=False)
     # unknown keys
     if is_schema:
         for k, v in dict.items(inst):
-            if k not in [o for o, _ in FIELDS.values()] and k not in ("double", "hsum", "mix", "sp"):
+            if k not in [o for o, _ in FIELDS.values()] and k not in ("double", "hsum", "mix", "mix2", "sp"):
                 if addition is None or addition is False:
                     fails.append((f"unknown-key-stored-although-addition-is-off/{step}", {"key": k}))
                 elif addition == "int" and type(v) is not int:
@@ -279,6 +284,15 @@ def check_invariants(inst, is_schema, options, initial_imm, step, inherit=False)
             fails.append((f"dependent-property-stale/of-two-fields/attribute/{step}", {"pos": vals["pos"], "hidden": vals["hidden"], "mix": codec.encode(m)}))
         if is_schema and dict.__contains__(inst, "mix") and dict.__getitem__(inst, "mix") != want:
             fails.append((f"dependent-property-stale/of-two-fields/key/{step}", {"pos": vals["pos"], "hidden": vals["hidden"], "mix": codec.encode(dict.__getitem__(inst, 'mix'))}))
+        # a property computed from another property follows it
+        try:
+            m2 = getattr(inst, "mix2")
+        except Exception as e:
+            m2 = ("raised", type(e).__name__)
+        if m == want and m2 != want + 1:
+            fails.append((f"dependent-property-stale/of-a-property/attribute/{step}", {"mix": codec.encode(m), "mix2": codec.encode(m2)}))
+        if is_schema and m == want and dict.__contains__(inst, "mix") and dict.__contains__(inst, "mix2") and dict.__getitem__(inst, "mix2") != want + 1:
+            fails.append((f"dependent-property-stale/of-a-property/key/{step}", {"mix": codec.encode(m), "mix2": codec.encode(dict.__getitem__(inst, 'mix2'))}))
     # (a property key whose dependency was deleted keeps its last value: tests/test_cls.py asserts that - "slug is not affected")
     return fails
 
